@@ -59,7 +59,7 @@ CHECKS = {
             "row list: a reported move (full or partial) yields the same rows in the same order and both reported "
             "operations are well-formed; no move => the existing operation is handed back. The single exception, "
             "Projection over Deduplication (finding F04), is excluded from the theorem and proved unsound by a concrete "
-            "witness that the check replays on the implementation. PartialJoin.commute (partial_join_commute_sound): for every existing operation, fixed relation and target, a reported move of a join is complete, both operations are well-formed where they land, columns and rows are those of joining at the root - as a multiset always, as a list (order included) unless the existing operation is a Sort; a join defines no row order, and partial_join_past_sort_is_not_order_exact shows list equality is false there in the nested-loop reading. " + CORR,
+            "witness that the check replays on the implementation. PartialJoin.commute (partial_join_commute_sound): for every existing operation, fixed relation and target, a reported move of a join is complete, both operations are well-formed where they land, columns and rows are those of joining at the root - as a multiset always, as a list (order included) unless the existing operation is a Sort AND the fixed relation is the left operand (with the target as the outer operand a stable sort commutes with the expansion of each target row: isort_flatMap); a join defines no row order, and partial_join_past_sort_is_not_order_exact shows list equality is false in that one remaining case in the nested-loop reading. " + CORR,
             "", "DESIGN.md 5/C04"),
     "C05": (PR, "Lean 4 theorems (slice/sort/selection/projection merge, simplify, _finish_apply) + correspondence",
             "Machine-checked: Slice.then total and exact for all bounds, Sort.then = sequential stable sorts, "
